@@ -12,6 +12,15 @@ fn text_pstr(heap: &Heap, s: PStr) -> Document {
   Document::non_static_str(String::from(s.as_str(heap)))
 }
 
+fn id_to_doc(heap: &Heap, comment_store: &CommentStore, id: &Id) -> Document {
+  create_opt_preceding_comment_doc(
+    heap,
+    comment_store,
+    id.associated_comments,
+    text_pstr(heap, id.name),
+  )
+}
+
 fn parenthesis_surrounded_doc(doc: Document) -> Document {
   Document::no_space_bracket("(", doc, ")")
 }
@@ -584,7 +593,7 @@ fn create_doc_without_preceding_comment(
       Document::non_static_str(s.as_str(heap).replace("\"", "\\\"")),
       Document::Text("\""),
     ]),
-    expr::E::LocalId(_, id) | expr::E::ClassId(_, _, id) => text_pstr(heap, id.name),
+    expr::E::LocalId(_, id) | expr::E::ClassId(_, _, id) => id_to_doc(heap, comment_store, id),
     expr::E::Tuple(_, e) => create_doc_for_parenthesized_expression_list(heap, comment_store, e),
     expr::E::FieldAccess(_) | expr::E::MethodAccess(_) | expr::E::Call(_) => {
       create_doc_for_dotted_chain(
@@ -796,10 +805,10 @@ fn matching_pattern_to_document(
         *ending_associated_comments,
         |it| {
           if it.shorthand {
-            text_pstr(heap, it.field_name.name)
+            id_to_doc(heap, comment_store, &it.field_name)
           } else {
             Document::concat(vec![
-              (text_pstr(heap, it.field_name.name)),
+              id_to_doc(heap, comment_store, &it.field_name),
               Document::Text(" as "),
               matching_pattern_to_document(heap, comment_store, &it.pattern),
             ])
@@ -989,7 +998,7 @@ fn create_doc_for_interface_member(
     if member.is_public { Document::Nil } else { Document::Text("private ") },
     Document::Text(if member.is_method { "method " } else { "function " }),
     type_parameters_to_doc(heap, comment_store, true, member.type_parameters.as_ref()),
-    (text_pstr(heap, member.name.name)),
+    id_to_doc(heap, comment_store, &member.name),
     create_opt_preceding_comment_doc(
       heap,
       comment_store,
@@ -1064,7 +1073,7 @@ fn interface_to_doc(
     )
     .unwrap_or(Document::Nil),
     Document::Text(if interface.private { "private interface " } else { "interface " }),
-    (text_pstr(heap, interface.name.name)),
+    id_to_doc(heap, comment_store, &interface.name),
     type_parameters_to_doc(heap, comment_store, false, interface.type_parameters.as_ref()),
     extends_or_implements_node_to_doc(
       heap,
@@ -1116,7 +1125,7 @@ fn class_to_doc(
     )
     .unwrap_or(Document::Nil),
     Document::Text(if class.private { "private class " } else { "class " }),
-    text_pstr(heap, class.name.name),
+    id_to_doc(heap, comment_store, &class.name),
     type_parameters_to_doc(heap, comment_store, false, class.type_parameters.as_ref()),
     match class.type_definition.as_ref() {
       None => Document::Nil,
@@ -1137,7 +1146,7 @@ fn class_to_doc(
           |field| {
             Document::concat(vec![
               Document::Text(if field.is_public { "val " } else { "private val " }),
-              text_pstr(heap, field.name.name),
+              id_to_doc(heap, comment_store, &field.name),
               Document::Text(": "),
               annotation_to_doc(heap, comment_store, &field.annotation),
             ])
@@ -1161,7 +1170,7 @@ fn class_to_doc(
           |variant| {
             if let Some(annotations) = &variant.associated_data_types {
               Document::concat(vec![
-                (text_pstr(heap, variant.name.name)),
+                id_to_doc(heap, comment_store, &variant.name),
                 create_opt_preceding_comment_doc(
                   heap,
                   comment_store,
@@ -1176,7 +1185,7 @@ fn class_to_doc(
                 ),
               ])
             } else {
-              text_pstr(heap, variant.name.name)
+              id_to_doc(heap, comment_store, &variant.name)
             }
           },
         )),
